@@ -98,7 +98,7 @@ META = {
              'selection that raises while the workers are started; (3) sampled graphs of 3-9 tasks from runlib.gen_case '
              '(all edge kinds, oracle, flags, selections) with injected cycles (ring of 1-3 tasks, edge kind per ring '
              'edge in task_dep/setup/calc_dep/file_dep, optionally a parent depending on several ring members, optionally '
-             'closed by a calc result).  non-trivial = has a dependency edge; distinct = rendered case + schedule'),
+             'closed by a calc result), mutually / back-referencing calc results, big-output tasks in process mode.  non-trivial = has a dependency edge; distinct = rendered case + schedule'),
     'assumptions': ['a hang of the OS / of a child that dies without a message is outside the model (DESIGN §8)',
                     'process-mode runs are sampled (real OS scheduling); a worker process still alive 1.5 s after '
                     'DoitMain.run returned counts as "the CLI would not terminate"',
@@ -139,17 +139,30 @@ def _build_with_raise(case, rec):
     c2['tasks'] = [dict(t, status='run') if t['status'] == 'raise' else t for t in case['tasks']]
     ns = _orig_build(c2, rec)
     raising = set(t['name'] for t in case['tasks'] if t['status'] == 'raise')
-    if not raising:
+    big = set(t['name'] for t in case['tasks'] if t.get('big') and t['kind'] == 'task')
+    if not raising and not big:
         return ns
     gen = ns['task_gen']
 
     def boom():
         raise RuntimeError('uptodate check blew up')
 
+    def loud(action):
+        # > 64 KiB of captured output: the result of the task does not fit the pipe buffer of the result queue
+        import functools
+
+        @functools.wraps(action)        # same signature: doit chooses the keyword arguments by inspecting it
+        def act(*a, **kw):
+            sys.stdout.write('x' * BIG_OUTPUT + '\n')
+            return action(*a, **kw)
+        return act
+
     def task_gen():
         for d in gen():
             if d.get('basename') in raising and d.get('name') is None:
                 d = dict(d, uptodate=[boom])
+            if d.get('basename') in big and d.get('name') is None and d.get('actions'):
+                d = dict(d, actions=[loud(d['actions'][0])] + list(d['actions'][1:]))
             yield d
     ns['task_gen'] = task_gen
     return ns
@@ -168,6 +181,7 @@ def _settle_threads():
             th.join(max(0.05, 2.0 - (time.time() - t0)))
 
 
+BIG_OUTPUT = 200000
 WATCHDOG = {'serial': 5.0, 'thread': 10.0, 'process': 8.0}
 
 
@@ -461,6 +475,50 @@ def inject_cycle(rng, case):
     return case
 
 
+def inject_calc_backrefs(rng, case):
+    """calc results that deliver calc_deps referring to each other or back to a calc task the receiver has already
+    processed (the recursive calc_dep recipe applied to files that include each other): the task graph stays acyclic
+    -- a calc result delivers dependencies to the RECEIVER, not to the calc task"""
+    tasks = case['tasks']
+    names = set(t['name'] for t in tasks)
+    ok = [t for t in tasks if t['kind'] == 'task' and t['status'] == 'run' and t['outcome'] == 'ok' and not t['ignored']]
+    recv = [t for t in tasks if t['kind'] == 'task']
+    if len(ok) < 2 or not recv:
+        return None
+    a = rng.choice(recv)
+    pool = [t for t in ok if t is not a and a['name'] not in t['task_dep'] + t['setup'] + t['calc_dep']]
+    if len(pool) < 2:
+        return None
+    k = min(len(pool), rng.choice([2, 2, 3]))
+    cs = rng.sample(pool, k)
+    shape = rng.choice(['mutual', 'chain-back', 'ring'])
+    for c in cs:
+        if c['calc_res'] is None:
+            c['calc_res'] = {'task_dep': [], 'file_dep': [], 'calc_dep': []}
+    def names_(x, y):
+        if y['name'] not in x['calc_res']['calc_dep']:
+            x['calc_res']['calc_dep'].append(y['name'])
+    if shape == 'mutual':
+        for c in cs:
+            add_edge(tasks, a['name'], c['name'], 'calc_dep')
+        for i, c in enumerate(cs):
+            names_(c, cs[(i + 1) % k])
+            if k == 2 or rng.random() < 0.5:
+                names_(c, cs[(i - 1) % k])
+    elif shape == 'chain-back':
+        add_edge(tasks, a['name'], cs[0]['name'], 'calc_dep')
+        for i in range(k - 1):
+            names_(cs[i], cs[i + 1])
+        names_(cs[-1], cs[0])
+    else:
+        add_edge(tasks, a['name'], cs[0]['name'], 'calc_dep')
+        for i in range(k):
+            names_(cs[i], cs[(i + 1) % k])
+    case['calc_backrefs'] = {'receiver': a['name'], 'calcs': [c['name'] for c in cs], 'shape': shape}
+    assert all(x in names for c in cs for x in c['calc_res']['calc_dep'])
+    return case
+
+
 def gen_sampled(seed, runner):
     rng = random.Random(seed)
     knobs = dict(n_min=3, n_max=9, runner=runner, p_dual=0.2, p_failed=0.08, p_exc=0.04, p_error=0.04, p_utd=0.15,
@@ -472,9 +530,15 @@ def gen_sampled(seed, runner):
     c = runlib.gen_case(rng, **knobs)
     if runner == 'thread':
         c['policy'] = runlib.gen_policy(rng, c['nproc'])
+    if rng.random() < 0.35:
+        inject_calc_backrefs(rng, c)
     mode = rng.random()
     if mode < 0.6:
         inject_cycle(rng, c)
+    if runner == 'process' and rng.random() < 0.5:
+        plain = [t for t in c['tasks'] if t['kind'] == 'task']
+        for t in rng.sample(plain, min(len(plain), rng.choice([1, 1, 2]))):
+            t['big'] = True
     c['family'] = 'sampled'
     c['seed'] = seed
     return c
@@ -524,6 +588,35 @@ def structured_cases():
             ts = [_task('t%d' % i) for i in range(3)]
             ts[pos]['status'] = 'raise'
             out.append(named(base_case(ts, None, runner, k), 'selection-raises'))
+    # calc results whose delivered calc_deps refer to each other / back to an already processed calc task (no cycle)
+    for runner, k in (('serial', 0), ('thread', 2), ('process', 2)):
+        for shape in ('mutual', 'chain-back', 'mutual-utd-receiver', 'mutual-plus-dep'):
+            if runner == 'process' and shape not in ('mutual', 'chain-back'):
+                continue
+            ts = [_task(x) for x in ('c1', 'c2', 'a')]
+            ts[0]['calc_res'] = {'task_dep': [], 'file_dep': [], 'calc_dep': ['c2']}
+            ts[1]['calc_res'] = {'task_dep': [], 'file_dep': [], 'calc_dep': ['c1']}
+            ts[2]['calc_dep'] = ['c1'] if shape == 'chain-back' else ['c1', 'c2']
+            if shape == 'mutual-utd-receiver':
+                ts[2]['status'] = 'utd'
+            if shape == 'mutual-plus-dep':
+                ts.append(_task('d'))
+                ts[0]['calc_res']['task_dep'] = ['d']
+                ts[1]['calc_res']['file_dep'] = []
+            out.append(named(base_case(ts, ['a'], runner, k), 'calc-backref'))
+    # a cyclic error raised in the main process while a worker process holds a result bigger than the pipe buffer
+    for k in (2, 3):
+        for sel, cyc in ((['big1', 'a'], 'self'), (['big1', 'big2', 'a'], 'self'), (['big1', 'a'], 'ring'),
+                         (['big1', 'big2', 'big3', 'a'], 'ring')):
+            ts = [_task(x) for x in ('big1', 'big2', 'big3', 'a', 'b')]
+            for t in ts[:3]:
+                t['big'] = True
+            if cyc == 'self':
+                ts[3]['task_dep'] = ['a']
+            else:
+                ts[3]['task_dep'] = ['b']
+                ts[4]['task_dep'] = ['a']
+            out.append(named(base_case(ts, sel, 'process', k), 'big-result-in-flight'))
     # a cyclic error found while / after the workers are started (process mode: the started workers must not stay)
     for k in (2, 3):
         ts = [_task(x) for x in ('x', 'a', 'b')]
@@ -543,6 +636,11 @@ def witness_of(case, obs, failed, py, lean, detail):
     w = runlib.make_witness(case, obs, failed, py, lean, detail)
     w['leak'] = obs.get('leak')
     w['family'] = case.get('family')
+    big = [t['name'] for t in case['tasks'] if t.get('big')]
+    if big:
+        w['big_output_tasks'] = big
+        w['rendered'] = list(w['rendered']) + ['(the actions of %s also print %d bytes, captured by doit: the result of the '
+                                               'task is larger than the 64 KiB pipe buffer)' % (big, BIG_OUTPUT)]
     return w
 
 
@@ -650,6 +748,12 @@ def count_c09(st, case, obs):
             st.count('flag:continue')
     st.count('exit:%s' % obs['exit'])
     st.count('err:%s' % obs['err'])
+    if any(t.get('big') for t in case['tasks']):
+        st.count('has_big_output_task')
+    if case.get('calc_backrefs'):
+        st.count('calc_backrefs:%s' % case['calc_backrefs']['shape'])
+    if any((t.get('calc_res') or {}).get('calc_dep') for t in case['tasks']):
+        st.count('calc_result_delivers_calc_dep')
     if obs.get('leak'):
         st.count('leaked_worker')
     if obs.get('diag_in_captured_stream'):
@@ -814,6 +918,8 @@ def replay(ctx, data):
     case['model'] = runlib.expand(dict(case, tasks=[dict(t, status='run') if t['status'] == 'raise' else t
                                                     for t in case['tasks']]))
     print(runlib.render(case))
+    if any(t.get('big') for t in case['tasks']):
+        print('(the actions of %s also print %d bytes)' % ([t['name'] for t in case['tasks'] if t.get('big')], BIG_OUTPUT))
     if has_raise(case):
         print('(the uptodate callable of %s raises RuntimeError)' % [t['name'] for t in case['tasks'] if t['status'] == 'raise'])
     obs = run_case(case)
